@@ -17,6 +17,8 @@ SPEC = os.path.join(ROOT, "spec")
 HARNESS = os.environ.get("VERIF_HARNESS_DIR") or os.path.join(ROOT, "harness")   # override: dev-time mutation testing on a scratch copy
 WORK = os.environ.get("VERIF_WORK_DIR") or os.path.join(ROOT, "work")
 EVID = os.environ.get("VERIF_EVID_DIR") or os.path.join(ROOT, "evidence")
+if os.environ.get("VERIF_LEARN") and not os.environ.get("VERIF_EVID_DIR"):
+    EVID = os.path.join(WORK, "evidence_learn")        # dev-time learning never overwrites committed evidence
 REPLAYS = os.environ.get("VERIF_REPLAYS_DIR") or os.path.join(ROOT, "replays")
 QEV = os.path.join(HARNESS, "target", "debug", "qev")
 NULL = -1073741824
